@@ -33,7 +33,10 @@ CODECS = [
          root='serialized_object', props=('C07',),
          unread_ok={('metadata', 'langVersion'): 'metadata other than the name is outside C07\'s content',
                     ('metadata', 'langID'): 'same', ('metadata', 'malVersion'): 'same',
-                    ('metadata', 'MAL-Toolbox Version'): 'same', ('metadata', 'info'): 'same'}),
+                    ('metadata', 'MAL-Toolbox Version'): 'same', ('metadata', 'info'): 'same'},
+         # the reader looks for 'MAL Toolbox Version' (blank), the writer emits 'MAL-Toolbox Version' (hyphen): the
+         # version stamp of a file is never read back (remark D32) - metadata other than the name is outside C07
+         unwritten_ok={('metadata', 'MAL Toolbox Version'): 'version stamp, outside C07 (remark D32)'}),
 ]
 KW_FIELD = {'node_id': 'id', 'attacker_id': 'id', 'asset_id': 'id'}
 
@@ -238,6 +241,26 @@ def run(ctx) -> list[Inst]:
                 insts.append(Inst(RULE, rf.short, construct, v, msg=msg, file=rel_r,
                                   line=r.expr.lineno, props=props))
                 break
+        # ---------------------------------------------------------------- (ii''') restored keys are written somewhere
+        # a key the reader restores under a presence test but that no writer ever emits is dead on the way in and
+        # LOST on the way out: whatever the field held does not survive a save / load
+        for path, rl in sorted(rby.items()):
+            if path[-1] in ('*', '[]') or path in wby:
+                continue
+            r0 = next((r for r in rl if r.kind in ('sub', 'get', 'in') and r.guarded), None)
+            if r0 is None or any(r.kind == 'sub' and not r.guarded for r in rl):
+                continue
+            # only below a record the writer does produce (same parent path written)
+            if not any(w.path[:-1] == path[:-1] for w in W if len(w.path) == len(path)):
+                continue
+            if path in cd.get('unwritten_ok', {}):
+                continue
+            construct = f"(ii) {cd['name']}: {'/'.join(path)} restored by the reader is written by the writer"
+            insts.append(Inst(
+                RULE, wf.short, construct, 'unproven' if writer_opaque else 'violation',
+                msg=(f"{rf.short} restores '{path[-1]}' when the record has it, but {wf.short} never writes that key "
+                     f"(its sibling keys are written): the value does not survive a save / load round trip"),
+                file=rel_w, line=wf.node.lineno, props=props))
         # ---------------------------------------------------------------- (ii') omission guards
         for path, wl in sorted(wby.items()):
             for w in wl:
